@@ -167,7 +167,7 @@ func propC34(c *Check) {
 		if lp != nil {
 			okp := false
 			for _, ins := range lp.Header.Instrs {
-				if p, isPhi := ins.(*ssa.Phi); isPhi && p.Comment == "total" {
+				if p, isPhi := ins.(*ssa.Phi); isPhi && phiIs(p, "total") {
 					okp = true
 					for i, ed := range p.Edges {
 						if !lp.Header.Dominates(lp.Header.Preds[i]) {
